@@ -247,6 +247,12 @@ func execute(h *run.H, tr *hist.Trace, draw func(w *hist.World) ([]hist.Step, []
 		}
 		b := w.C.MakeBlock(*blk.Spec)
 		ntx := len(b.Txs)
+		// The plain twin executes the block first: state that leaks between the two replicas through process
+		// globals (they share one process here, real nodes do not) then cannot reach it from this block's CheckTx calls.
+		ref := plain.RunBlock(b)
+		if plain.Panicked {
+			return &outcome{"node-panic", "plain", fmt.Sprintf("the twin without CheckTx panicked in %s at height %d and shut itself down", plain.PanicCall, b.Height)}, st
+		}
 		finalizeMidBlock := false // accepted CheckTx(PROPOSAL_FINALIZE) between this BeginBlock and the diverging DeliverTx
 		doChecks := func(at string) bool {
 			for _, c := range inj[at] {
@@ -329,10 +335,6 @@ func execute(h *run.H, tr *hist.Trace, draw func(w *hist.World) ([]hist.Step, []
 			return panicked("CheckTx after-commit"), st
 		}
 
-		ref := plain.RunBlock(b)
-		if plain.Panicked {
-			return &outcome{"node-panic", "plain", fmt.Sprintf("the twin without CheckTx panicked in %s at height %d and shut itself down", plain.PanicCall, b.Height)}, st
-		}
 		w.Results = append(w.Results, ref)
 		_ = w.C.Advance(ref.AppHash, ref.Updates)
 		for i, t := range ref.Txs {
@@ -363,6 +365,13 @@ func execute(h *run.H, tr *hist.Trace, draw func(w *hist.World) ([]hist.Step, []
 		for i, t := range ref.Txs {
 			if t.Code == 0 && i < len(blk.Kinds) {
 				st.feats["delivered-ok:"+blk.Kinds[i]]++
+			}
+			if i < len(blk.Kinds) && strings.HasSuffix(blk.Kinds[i], "#forged") {
+				if t.Code != 0 {
+					st.feats["forged-twin:delivered-and-rejected-on-both"]++
+				} else {
+					st.feats["forged-twin:delivered-and-accepted-on-both"]++
+				}
 			}
 		}
 	}
